@@ -624,7 +624,8 @@ func (s *Sim) step(me *G, wait bool) bool {
 		s.running = nil
 		s.stopStatus = stop
 		s.stopped = true
-		if !RaceBuild {
+		if !RaceBuild && me != nil {
+			// (the driver itself runs the first step of RunUntil: no token then)
 			signalRaw(s.driverWake)
 		}
 		return false
